@@ -229,6 +229,8 @@ def battery15(g, w, ss):
                     o['freq'].append([ci, pos, int(k.rsplit('-s', 1)[1])] + val(('ok', v)))
         if sm > 0:
             for x in range(1, n + 1):
+                if g['pos'][x - 1] not in ('n', 'v', 'a', 's', 'r'):
+                    continue       # no information content outside these parts of speech
                 o['prob'].append([ci, x]
                                  + val(call(wn.ic.synset_probability, ss[x], res))
                                  + val(call(wn.ic.information_content, ss[x], res),
